@@ -119,6 +119,31 @@ impl UserFunction for Park {
     }
 }
 
+/// a function in which every caller waits until `need` callers have arrived (or a deadline passes): all the evaluations
+/// of a batch are suspended inside it at the same moment, each at its own nesting depth
+struct Hold {
+    arrived: Arc<AtomicUsize>,
+    need: Arc<AtomicUsize>,
+}
+
+#[async_trait]
+impl UserFunction for Hold {
+    async fn call(&self, params: Value) -> FunctionResult {
+        self.arrived.fetch_add(1, Ordering::SeqCst);
+        let t0 = std::time::Instant::now();
+        while self.arrived.load(Ordering::SeqCst) < self.need.load(Ordering::SeqCst) && t0.elapsed().as_secs() < 20 {
+            tokio::task::yield_now().await;
+        }
+        Ok(params)
+    }
+    fn name(&self) -> &'static str {
+        "hold"
+    }
+    fn cacheable(&self) -> bool {
+        false
+    }
+}
+
 /// None = consistent; Some(description) otherwise
 fn stamp_inconsistency(os: &Result<Vec<reval::ruleset::Outcome>, reval::Error>) -> Option<String> {
     let os = match os {
@@ -446,6 +471,70 @@ fn main() {
                 let t1 = ticket_of(&os).map(Value::Int);
                 let t2 = os.as_ref().ok().and_then(|v| v.get(3).and_then(|o| o.value.as_ref().ok().cloned()));
                 check(stamp_inconsistency(&os), t1, t2, "after ones that never completed", &mut mismatches);
+            }
+        }
+    }
+    // (6) mass suspension: thousands of evaluations of one shared ruleset, each nested 40 operators deep, all parked in a
+    //     user function at the same moment — on one thread (every frame of every evaluation is live on that thread) and on
+    //     a 4-worker runtime.  Whatever an evaluation counts, guards or budgets must be its own: each returns what it
+    //     returns alone.
+    {
+        let arrived = Arc::new(AtomicUsize::new(0));
+        let need = Arc::new(AtomicUsize::new(1));
+        let depth = 40usize;
+        let text = format!("// deep\n{}hold(x){}", "(".repeat(depth), " + i1)".repeat(depth));
+        let text2 = format!("// deep2\n{}hold(x){}", "!(".repeat(depth), ")".repeat(depth));
+        let rs6 = Arc::new(
+            ruleset()
+                .with_rule(Rule::parse(&text).unwrap())
+                .unwrap()
+                .with_rule(Rule::parse(&text2).unwrap())
+                .unwrap()
+                .with_function(Hold { arrived: arrived.clone(), need: need.clone() })
+                .unwrap()
+                .build(),
+        );
+        let alone: Vec<String> = inputs.iter().take(4).map(|i| enc(&rt1.block_on(rs6.evaluate(i)))).collect();
+        for (label, n, multi) in [("one thread", if quick { 1500usize } else { 6000 }, false), ("4 workers", if quick { 1500 } else { 6000 }, true)] {
+            arrived.store(0, Ordering::SeqCst);
+            // two calls of hold per evaluation (one per rule): the first rule's calls gather everybody
+            need.store(n, Ordering::SeqCst);
+            let rt6 = if multi { tokio::runtime::Builder::new_multi_thread().worker_threads(4).build().unwrap() } else { tokio::runtime::Builder::new_current_thread().build().unwrap() };
+            let outs: Vec<(usize, Result<String, String>)> = rt6.block_on(async {
+                let hs: Vec<_> = (0..n)
+                    .map(|t| {
+                        let rs6 = rs6.clone();
+                        let inp = inputs[t % 4].clone();
+                        tokio::spawn(async move { enc(&rs6.evaluate(&inp).await) })
+                    })
+                    .collect();
+                let mut outs = vec![];
+                for (t, h) in hs.into_iter().enumerate() {
+                    outs.push((t, h.await.map_err(|e| e.to_string())));
+                }
+                outs
+            });
+            let mut bad = 0usize;
+            for (t, o) in outs {
+                runs += 1;
+                match o {
+                    Ok(o) if o == alone[t % 4] => {}
+                    Ok(o) => {
+                        bad += 1;
+                        if bad <= 2 {
+                            mismatches.push(format!("{} evaluations nested {} deep suspended at once on {}: input={} got {} want {}", n, depth, label, t % 4, o.chars().take(160).collect::<String>(), alone[t % 4].chars().take(160).collect::<String>()));
+                        }
+                    }
+                    Err(e) => {
+                        bad += 1;
+                        if bad <= 2 {
+                            mismatches.push(format!("{} evaluations suspended at once on {}: a task panicked ({})", n, label, e));
+                        }
+                    }
+                }
+            }
+            if bad > 2 {
+                mismatches.push(format!("… and {} more of the {} evaluations suspended at once on {}", bad - 2, n, label));
             }
         }
     }
